@@ -116,10 +116,25 @@ def cases(draw):
                        ["new_cells", list(s.path), callee], ["new_cells", list(s.path), user]):
                 ops.append(op)
                 gen.apply_ref(G, op)
+    # a local name (lambda parameter / comprehension variable) that shadows a cells and is subscripted
+    if draw(st.integers(0, 3)) == 0:
+        cands = [(s, n) for s in G.all_spaces() for n in G.cells_names(s) if G.find_cells(s, "c9") is None
+                 and "c9" not in s.children]
+        if cands:
+            s, cn = draw(st.sampled_from(cands))
+            src = draw(st.sampled_from(["((lambda %(c)s: %(c)s[1] + x)([5, 6, 7]))",
+                                        "sum([%(c)s[0] for %(c)s in [[x, 1], [2, 3]]])",
+                                        "((lambda %(c)s: %(c)s['k'])({'k': x + 4}))"])) % {"c": cn}
+            user = {"name": "c9", "params": [["x", None]], "expr": ["raw", src], "cached": draw(st.booleans()),
+                    "allow_none": None, "form": draw(st.sampled_from(["lambda", "def"])), "tick": False}
+            op = ["new_cells", list(s.path), user]
+            ops.append(op)
+            gen.apply_ref(G, op)
     # pickled (non-literal) references
     for j, s in enumerate(G.all_spaces()[:2]):
         if draw(st.booleans()):
-            ops.append(["set_ref", list(s.path), "v%d" % j, ["py", draw(st.sampled_from(["[1, 2, 3]", "{'a': 1}", "(4, 5)"]))], None])
+            ops.append(["set_ref", list(s.path), "v%d" % j, ["py", draw(st.sampled_from(["[1, 2, 3]", "{'a': 1}", "(4, 5)", "numpy.float64(2.5)", "numpy.int64(7)",
+                                                           "http.HTTPStatus.OK", "fractions.Fraction(1, 3)"]))], None])
     queries = []
     for s in G.all_spaces():
         for n in G.cells_names(s):
@@ -161,7 +176,7 @@ def features(case):
     if '"add_bases"' in src:
         f.add("inheritance")
     if '"name": "max"' in src or '"name": "min"' in src or '"name": "c6"' in src or '"name": "c5"' in src \
-            or '"name": "c8"' in src:
+            or '"name": "c8"' in src or '"name": "c9"' in src:
         f.add("shadow")
     if '"lam"' in src or '"sum"' in src or '"lst"' in src:
         f.add("nested-scope")
